@@ -45,6 +45,9 @@ pub struct Script {
     /// every decode call that starts after the given global frame number waits until a common deadline
     /// (all workers stall at once for the given number of milliseconds, then continue)
     pub stall: Option<(u64, u64)>,
+    /// building the decoders with index >= .0 takes .1 milliseconds (the engine builds them one after the other on
+    /// the collecting thread, so the workers already running get far ahead of the collector)
+    pub slow_build: Option<(usize, u64)>,
 }
 
 pub struct Shared {
@@ -86,6 +89,11 @@ impl std::fmt::Display for ScriptFactory {
 impl DecoderFactory for ScriptFactory {
     fn build_decoder(&self, h: SparseMatrix) -> Box<dyn LdpcDecoder> {
         let idx = self.0.built.fetch_add(1, Ordering::SeqCst);
+        if let Some((from, ms)) = self.0.script.slow_build {
+            if idx >= from {
+                std::thread::sleep(Duration::from_millis(ms));
+            }
+        }
         Box::new(ScriptDecoder {
             sh: self.0.clone(),
             worker: idx,
@@ -767,6 +775,7 @@ fn base_script(rng: &mut Rng, k: usize) -> Script {
         panic_at: vec![],
         panic_all: false,
         stall: None,
+        slow_build: None,
     }
 }
 
@@ -848,8 +857,162 @@ fn judge(l: &mut Local, p: &Params, o: &Outcome, expect: &str) {
     }
 }
 
+// ---------------------------------------------------------------- the `ber` front end (result files)
+
+/// The scripted decoder as a command-line selectable implementation (the front end is generic over the factory,
+/// like examples/external_decoder_ber.rs shows); the script is handed over through a process-wide slot.
+#[derive(Clone, Copy, Debug, PartialEq, Eq)]
+pub enum CliScripted {
+    Scripted,
+}
+static CLI_SHARED: Mutex<Option<Arc<Shared>>> = Mutex::new(None);
+impl std::fmt::Display for CliScripted {
+    fn fmt(&self, f: &mut std::fmt::Formatter<'_>) -> std::fmt::Result {
+        write!(f, "Scripted")
+    }
+}
+impl DecoderFactory for CliScripted {
+    fn build_decoder(&self, h: SparseMatrix) -> Box<dyn LdpcDecoder> {
+        ScriptFactory(CLI_SHARED.lock().unwrap().clone().expect("script installed")).build_decoder(h)
+    }
+}
+impl clap::ValueEnum for CliScripted {
+    fn value_variants<'a>() -> &'a [Self] {
+        &[CliScripted::Scripted]
+    }
+    fn to_possible_value(&self) -> Option<clap::builder::PossibleValue> {
+        Some(clap::builder::PossibleValue::new("Scripted"))
+    }
+}
+
+fn parse_result_rows(text: &str) -> Vec<Vec<String>> {
+    text.lines()
+        .filter(|l| l.matches('|').count() == 10 && l.trim_start().chars().next().map(|c| c.is_ascii_digit() || c == '-').unwrap_or(false) && !l.starts_with("--------"))
+        .map(|l| l.split('|').map(|f| f.trim().to_string()).collect())
+        .collect()
+}
+
+/// ONE run of the `ber` front end (`cli::ber::Args::run`, which can be used once per process because it registers a
+/// Ctrl-C handler) with the scripted decoder, an outer-code threshold and both result files, on one CPU so that
+/// every point has exactly one worker: the frames a point consumed are then the first F records of that worker, and
+/// every integer column of every row of both files has an exact expected value.
+pub fn cli_ber_one(run: &mut Run) {
+    use clap::Parser;
+    use ldpc_toolbox::cli::Run as CliRun;
+    run.rule = "one run of cli::ber::Args<Scripted>::run per process: scripted decoder (every frame has 1..3 systematic bit errors), --bch-max-errors 1 or 2, 3 Eb/N0 points, --output-file and --output-file-ldpc; one CPU, so each point has one worker; expected integer columns (frames, bit errors, frame errors, false decodes) of every row of both files computed from the scripted frame log".into();
+    run.min_nontrivial = 1;
+    run.sub_seq("cli-ber-result-files", 1, |l, _idx, rng| {
+        let h = small_h(rng);
+        let k = h.cols - h.rows;
+        let mut script = base_script(rng, k);
+        script.p_err = 1.0;
+        script.max_e = 3.min(k);
+        script.delays = false;
+        let t = rng.range(1, 2) as u64;
+        let target = rng.range(3, 12) as u64;
+        let sh = Arc::new(Shared {
+            k,
+            script: script.clone(),
+            counter: AtomicU64::new(0),
+            log: Mutex::new(Vec::new()),
+            built: AtomicUsize::new(0),
+            dropped: AtomicUsize::new(0),
+            in_decode: AtomicUsize::new(0),
+            last_begin_ns: AtomicU64::new(0),
+            t0: Instant::now(),
+            stall_deadline_ns: AtomicU64::new(0),
+        });
+        *CLI_SHARED.lock().unwrap() = Some(sh.clone());
+        let base = format!("/verif/target/legs/c13-cliber-{}", std::process::id());
+        let (apath, fa, fb) = (format!("{}.alist", base), format!("{}.out", base), format!("{}.ldpc.out", base));
+        let _ = std::fs::create_dir_all("/verif/target/legs");
+        std::fs::write(&apath, h.to_sparse().alist()).expect("write alist");
+        let argv: Vec<String> = vec![
+            "ber".into(), apath.clone(), "--decoder".into(), "Scripted".into(), "--min-ebn0".into(), "60".into(), "--max-ebn0".into(), "62".into(), "--step-ebn0".into(), "1".into(),
+            "--frame-errors".into(), target.to_string(), "--bch-max-errors".into(), t.to_string(), "--output-file".into(), fa.clone(), "--output-file-ldpc".into(), fb.clone(),
+        ];
+        let det = || J::obj().set("args", format!("{:?}", argv)).set("h", format!("{}x{}", h.rows, h.cols)).set("bch_max_errors", t).set("target_frame_errors", target);
+        if !set_affinity(&[0]) {
+            l.inconclusive("sched_setaffinity failed: worker count not under control");
+            return;
+        }
+        l.eval();
+        let args = match ldpc_toolbox::cli::ber::Args::<CliScripted>::try_parse_from(&argv) {
+            Ok(a) => a,
+            Err(e) => {
+                l.violation("the ber front end does not accept a valid argument set", det().set("error", e.to_string()));
+                return;
+            }
+        };
+        let res = guard(|| args.run().map_err(|e| e.to_string()));
+        match res {
+            Err(p) => {
+                l.violation(format!("the ber front end panicked: {}", panic_class(&p)), det().set("panic", p));
+                return;
+            }
+            Ok(Err(e)) => {
+                l.violation("the ber front end fails for a valid configuration", det().set("error", e));
+                return;
+            }
+            Ok(Ok(())) => {}
+        }
+        let (ta, tb) = (std::fs::read_to_string(&fa).unwrap_or_default(), std::fs::read_to_string(&fb).unwrap_or_default());
+        let (ra, rb) = (parse_result_rows(&ta), parse_result_rows(&tb));
+        for f in [&apath, &fa, &fb] {
+            let _ = std::fs::remove_file(f);
+        }
+        if ra.len() != 3 || rb.len() != 3 {
+            l.violation("a result file does not have one row per requested Eb/N0", det().set("rows_main_file", ra.len()).set("rows_ldpc_only_file", rb.len()).set("main_file", ta.chars().take(1500).collect::<String>()));
+            return;
+        }
+        let log = sh.log.lock().unwrap().clone();
+        for p in 0..3 {
+            let frames: usize = ra[p][1].parse().unwrap_or(usize::MAX);
+            let recs: Vec<&FrameRec> = log.iter().filter(|r| r.worker == p).collect();
+            if frames > recs.len() || rb[p][1] != ra[p][1] {
+                l.violation("the frame counts of the two result files disagree with each other or exceed the frames simulated", det().set("point", p).set("main_row", format!("{:?}", ra[p])).set("ldpc_row", format!("{:?}", rb[p])).set("frames_simulated_by_this_worker", recs.len()));
+                return;
+            }
+            let used = &recs[..frames];
+            let ldpc_bits: u64 = used.iter().map(|r| r.e as u64).sum();
+            let ldpc_fe = used.iter().filter(|r| r.e > 0).count() as u64;
+            let bch_bits: u64 = used.iter().filter(|r| r.e as u64 > t).map(|r| r.e as u64).sum();
+            let bch_fe = used.iter().filter(|r| r.e as u64 > t).count() as u64;
+            let fd = used.iter().filter(|r| r.success && r.e > 0).count() as u64;
+            let want_a = [frames as u64, bch_bits, bch_fe, fd];
+            let want_b = [frames as u64, ldpc_bits, ldpc_fe, fd];
+            for (file, row, want) in [("LDPC+BCH result file", &ra[p], want_a), ("LDPC-only result file", &rb[p], want_b)] {
+                let got: Vec<u64> = (1..=4).map(|i| row[i].parse().unwrap_or(u64::MAX)).collect();
+                l.eval();
+                if got != want {
+                    l.violation(
+                        format!("{}: a row does not carry the statistics of the frames the point consumed", file),
+                        det().set("point", p).set("is_last_point", p == 2).set("row", format!("{:?}", row)).set("columns", "frames, bit errors, frame errors, false decodes").set("got", got).set("expected", want.to_vec()),
+                    );
+                    return;
+                }
+            }
+            if bch_fe != target {
+                l.violation("a point did not stop exactly at the required number of frame errors (front end run)", det().set("point", p).set("frame_errors_after_outer_code", bch_fe));
+                return;
+            }
+            if ldpc_fe > bch_fe {
+                let mut d = Dig::new();
+                d.s("cliber").u(script.seed).u(p as u64);
+                l.nt(d.get());
+            }
+        }
+        l.count("front_end_runs_with_both_result_files");
+        l.sample(|| det().set("main_rows", format!("{:?}", ra)).set("ldpc_only_rows", format!("{:?}", rb)));
+    });
+}
+
 pub fn run(run: &mut Run) {
-    run.rule = "the real BerTest engine driven through the public DecoderFactory with a scripted decoder (unique 44-bit iteration code per frame, scripted bit errors on the systematic part, success flag, heavy-tailed delays before returning) at Eb/N0 = 60 dB and a zero-interval Reporter; offline checker: successive report differences identify the consumed frames through their unique codes (multi-frame steps resolved by search over the workers' next unconsumed frames); required: no invention, no duplication, per-worker FIFO, every counter = sum over the consumed set (frames, systematic bit errors, frame errors, false decodes, total and correct-frame iterations, outer-code threshold accounting), ratios = stated ratios, stop exactly at the error target by a frame that incremented it, returned vector = last report of each point in order, exactly one 'finished' at the end, all decoders dropped and no decode begun after run() returned; worker count 1..16 through sched_setaffinity around BerTest::new in three modes (restored / W cpus / one cpu); failure injection: puncturing not dividing n, interleaver columns or 8PSK not fitting (stage panics in every worker), decoder panics in some / all workers; all workers stalling simultaneously for 6.5 s (2.5 .. 35 s in thorough) in the middle of a point; non-trivial = a run with >= 2 workers whose consumption order is not sorted by worker id (distinct by digest of the consumed worker-id sequence), and every failure-injection scenario".into();
+    if run.leg.as_deref().map(|x| x.starts_with("cliber")).unwrap_or(false) {
+        cli_ber_one(run);
+        return;
+    }
+    run.rule = "the real BerTest engine driven through the public DecoderFactory with a scripted decoder (unique 44-bit iteration code per frame, scripted bit errors on the systematic part, success flag, heavy-tailed delays before returning) at Eb/N0 = 60 dB and a zero-interval Reporter; offline checker: successive report differences identify the consumed frames through their unique codes (multi-frame steps resolved by search over the workers' next unconsumed frames); required: no invention, no duplication, per-worker FIFO, every counter = sum over the consumed set (frames, systematic bit errors, frame errors, false decodes, total and correct-frame iterations, outer-code threshold accounting), ratios = stated ratios, stop exactly at the error target by a frame that incremented it, returned vector = last report of each point in order, exactly one 'finished' at the end, all decoders dropped and no decode begun after run() returned; worker count 1..16 through sched_setaffinity around BerTest::new in three modes (restored / W cpus / one cpu); failure injection: puncturing not dividing n, interleaver columns or 8PSK not fitting (stage panics in every worker), decoder panics in some / all workers; all workers stalling simultaneously for 6.5 s (2.5 .. 35 s in thorough) in the middle of a point; the last decoders taking 20..150 ms to build while the first workers already deliver thousands of instant frames (workers far ahead of the collector); non-trivial = a run with >= 2 workers whose consumption order is not sorted by worker id (distinct by digest of the consumed worker-id sequence), and every failure-injection scenario".into();
     run.assumptions = vec![
         "a propagated panic out of run() counts as terminated in the partial-failure scenario (decoder panics in some workers)".into(),
         "wall-clock watchdog of 60 s per scenario only bounds how long we look; scenarios take milliseconds".into(),
@@ -957,6 +1120,42 @@ pub fn run(run: &mut Run) {
             judge(l, &p, &o, "ok");
             let mut d = Dig::new();
             d.s("stall").u(idx);
+            l.nt(d.get());
+        });
+    }
+    // workers far ahead of the collector: the last decoders take a while to build while the first workers already
+    // produce thousands of instant frames; the point needs only a few of them, everything else is discarded, and the
+    // run must still join every worker (a worker blocked while handing over a result could never be told to stop)
+    if !miri {
+        let nfa = run.tier.n(3, 24);
+        run.sub_seq("workers-far-ahead", nfa, move |l, idx, rng| {
+            if HUNG.load(Ordering::SeqCst) {
+                return;
+            }
+            let h = small_h(rng);
+            let k = h.cols - h.rows;
+            let mut script = base_script(rng, k);
+            script.p_err = 1.0;
+            script.delays = false;
+            let workers = 3 + rng.below(6);
+            script.slow_build = Some((workers - 1 - rng.below(2), [20u64, 60, 150][idx as usize % 3]));
+            let p = Params {
+                workers,
+                affinity_mode: 0,
+                target: rng.range(1, 3) as u64,
+                bch: 0,
+                ebn0s: vec![60.0, 61.0],
+                script,
+                puncture: None,
+                interleave: None,
+                psk8: false,
+                kind: "normal (workers thousands of frames ahead of the collector)",
+                h,
+            };
+            let o = run_scenario(&p);
+            judge(l, &p, &o, "ok");
+            let mut d = Dig::new();
+            d.s("far-ahead").u(idx);
             l.nt(d.get());
         });
     }
